@@ -107,6 +107,7 @@ def _tilt_or_zero(maxtilt):
     return st.one_of(nice(-maxtilt, maxtilt, 3), st.just(0.0))
 
 
+_scale_exp = st.sampled_from([0, 0, 0, 0, -10, -8, -5, -3, -1, 1, 3])
 _kinds4 = st.sampled_from(['tri', 'tri', 'ortho', 'family'])
 _kinds3 = st.sampled_from(['tri', 'tri', 'ortho'])
 _bool = st.booleans()
@@ -114,7 +115,7 @@ _bool = st.booleans()
 
 @st.composite
 def cells(draw, rotated=True, lefthanded=False, origin=True, lmin=0.5, lmax=50.0, maxtilt=1.5,
-          families=True, zero_tilt_share=True):
+          families=True, zero_tilt_share=True, scaled=False):
     """A conditioned non-degenerate cell."""
     kind = draw(_kinds4 if families else _kinds3)
     if kind == 'family':
@@ -137,6 +138,9 @@ def cells(draw, rotated=True, lefthanded=False, origin=True, lmin=0.5, lmax=50.0
     lh = bool(lefthanded and draw(_bool))
     c = {'lx': lx, 'ly': ly, 'lz': lz, 'xy': xy, 'xz': xz, 'yz': yz, 'origin': org, 'rot': rot,
          'lefthanded': lh}
+    if scaled:
+        # overall length scale (vectors and origin): atomman's Box is scale free (relative 1e-9 clean-up only)
+        c['scale'] = 10.0 ** draw(_scale_exp)
     return c
 
 
@@ -147,11 +151,11 @@ def cell_vects(c):
     if c.get('rot'):
         R = rotation_matrix(*c['rot'])
         V = V @ R.T
-    return V
+    return V * c.get('scale', 1.0)
 
 
 def cell_origin(c):
-    return np.array(c['origin'], dtype=float)
+    return np.array(c['origin'], dtype=float) * c.get('scale', 1.0)
 
 
 def cell_cond(c):
@@ -172,6 +176,8 @@ def cell_labels(c):
         labs.add('origin')
     if c.get('lefthanded'):
         labs.add('lefthanded')
+    if c.get('scale', 1.0) != 1.0:
+        labs.add('scaled')
     return labs
 
 
